@@ -6,6 +6,7 @@ import SieveModel.Spec.WF
 import SieveModel.Model.Serialize
 import SieveModel.Model.FilterSet
 import SieveModel.Spec.Rfc5804
+import SieveModel.Model.Safety
 /-! Line-protocol driver: one request per line on stdin, one answer per line on stdout. -/
 
 structure DState where
@@ -150,6 +151,11 @@ def answer (st : DState) (line : String) : DState × String :=
   | "wf" :: rest => (st, (Spec.wfBytes st.table (hexArg rest)).name)
   | ["table-reset"] => ({ st with table := Generated.builtinTable }, "ok")
   | ["table-clear"] => ({ st with table := [] }, "ok")
+  | ["table-safe"] =>
+    -- the hypothesis of C02.parse_always_verdict on the table held by the driver: names of the definitions that fail it
+    (st, match (st.table.filter (fun d => !Safe.cmdSafe d)).map (fun d => B.toHex d.name) with
+      | [] => "safe"
+      | l => "notsafe " ++ ",".intercalate l)
   | "table-add" :: fs =>
     match TableCodec.defOf fs with
     | some d => ({ st with table := st.table.register d }, "ok")
